@@ -177,6 +177,35 @@ package engine
 //@   call (*WAL).Remove
 //@     requires [remove_after_flush] st == 2 && arg0 == walFileNames
 
+// The replay callback: a record that cannot be applied stops the replay with its error (so the log is neither
+// flushed over nor removed); only the series-limit error is tolerated, as during the original write.
+//@ func (*shard).syncReplayWal$1
+//@   ghost applied bool = false
+//@   ghost e Iface = nil
+//@   ghost lim bool = false
+//@   call (*shard).writeWalBuffer
+//@     set applied = true
+//@     set e = ret0
+//@   call Equal
+//@     set lim = ret0
+//@   ensures [apply_error_stops_replay] applied && e != nil && !lim ==> result == e
+//@   ensures [record_applied_unless_marker] (rowsCtx == nil || !old(rowsCtx.isLastRows)) ==> applied
+
+// The flush that ends a replay (and every forced flush): whenever the shard has an index builder the snapshot is
+// written - being "not yet opened" (replay runs before the shard is marked open) is no reason to skip it.
+//@ func (*shard).ForceFlush
+//@   ghost fl bool = false
+//@   call .ForceFlush on s.storage
+//@     requires arg0 == s
+//@     set fl = true
+//@   ensures [reaches_the_storage_flush] fl
+//@ func (*tsstoreImpl).ForceFlush
+//@   ghost snap bool = false
+//@   call .writeSnapshot
+//@     requires arg0 == s
+//@     set snap = true
+//@   ensures [flushes_whenever_there_is_an_index_builder] old(s.indexBuilder) != nil ==> snap
+
 // ================================================================ C14: duration refresh reaches loaded shards
 //@ prop C14
 // The duration received from the catalogue replaces the loaded shard's duration and its index builder's, whatever
